@@ -8,23 +8,6 @@ open Spec
 
 /-! ### option resolution -/
 
-theorem resolve_outside {c : Cfg} {po : Option Opts} {key : Str} {m : Obj} {om : Option Opts}
-    (hc : c.pinned = false) (h : resolveOpts c po key m = .ok om) : optOutside om = optOutside po := by
-  unfold resolveOpts at h
-  cases po with
-  | none => simp at h; subst h; rfl
-  | some o =>
-    simp only at h
-    obtain ⟨o', ho', rfl⟩ := exceptMap_ok h
-    unfold toOptionsWithContext at ho'
-    cases he : effOptional o key m with
-    | error e => simp [he] at ho'
-    | ok b =>
-      simp only [he] at ho'
-      split at ho'
-      · simp at ho'; subst ho'; rfl
-      · simp at ho'; subst ho'; simp [optOutside, hc]
-
 theorem resolve_ok {c : Cfg} {po : Option Opts} {key : Str} {m : Obj}
     (h : depOK (effOpts po) key m = true) : ∃ om, resolveOpts c po key m = .ok om := by
   unfold resolveOpts
@@ -260,15 +243,14 @@ theorem fieldCore_complete {c : Cfg} {name : Str} {tag : Option Str} {isSlice : 
       obtain ⟨hdep, hrest⟩ := h
       obtain ⟨om, hom⟩ := resolve_ok (c := c) hdep
       obtain ⟨_, hopt, hdef, hrange, hoptions, hfs⟩ := resolve_spec hc hom
-      have hout := resolve_outside hc hom
+      have hout := resolve_inherit hc hom
       simp only [hom]
       by_cases hk : key = "-".toList
       · exact ⟨z, by simp [hk]⟩
       · simp only [hk, decide_false, Bool.false_or, Bool.and_eq_true, Bool.not_eq_true'] at hrest
-        obtain ⟨ho, hval⟩ := hrest
-        rw [if_neg hk, hout, ho]
-        simp only [Bool.false_eq_true, if_false]
-        cases hl : lookupKey c key m with
+        have hval := hrest
+        rw [if_neg hk, hout]
+        cases hl : lookupKey c (optInherit po) key m with
         | error e => simp [hl] at hval
         | ok lk =>
         cases lk with
@@ -483,9 +465,9 @@ theorem okFields_complete (c : Cfg) (hc : c.pinned = false) :
     unfold okFields at h
     simp only [Bool.and_eq_true] at h
     have hrep : c.repaired = c := by cases c; simp_all [Cfg.repaired]
-    obtain ⟨v, hv⟩ := fieldCore_complete (wv := fun o j => withValue c.nest o t j) (ar := fun _ => absentRequired c t)
+    obtain ⟨v, hv⟩ := fieldCore_complete (wv := fun o j => withValue (c.nestIn m) o t j) (ar := fun _ => absentRequired c t)
       (dv := defaultVal c t) (z := zero t) hc
-      (fun om j hj => okTy_complete c.nest (Cfg.nest_pinned hc) t om j hj)
+      (fun om j hj => okTy_complete (c.nestIn m) (Cfg.nest_pinned hc) t om j hj)
       (fun ha => okAbsent_complete c hc t ha)
       (fun d hd => by
         rw [hrep] at hd
